@@ -120,7 +120,29 @@ const (
 	c20Test               = "TestVerifC20Crash"
 	c20KnownLossBelowTail = "kv-loss-below-history-tail"
 	c20KnownStaleJournal  = "stale-journal-after-rollback"
+	c20KnownTrienodeTail  = "rollback-below-trienode-history-tail"
 )
+
+// c20RollbackFloor returns the lowest state id a rollback may target: the state
+// history tail, raised to the trienode history tail while the known finding about
+// rollbacks below that tail is listed (excluded by construction, counted).
+func c20RollbackFloor(db *Database) (floor, stateTail uint64, err error) {
+	stateTail, err = db.stateFreezer.Tail(rawdb.DefaultHistoryGroup)
+	if err != nil {
+		return 0, 0, err
+	}
+	floor = stateTail
+	if db.trienodeFreezer != nil {
+		tt, err := db.trienodeFreezer.Tail(rawdb.DefaultHistoryGroup)
+		if err != nil {
+			return 0, 0, err
+		}
+		if tt > floor && vs.Known(c20Test, c20KnownTrienodeTail) {
+			floor = tt
+		}
+	}
+	return floor, stateTail, nil
+}
 
 // ---------------------------------------------------------------- live run
 
@@ -151,6 +173,7 @@ type c20Run struct {
 	journals  []c20Journal
 	trace     []string
 	nOps      map[string]int
+	st        *vs.S
 }
 
 func (r *c20Run) config() string {
@@ -256,9 +279,12 @@ func (r *c20Run) ancestors(root common.Hash, lo int) map[int]common.Hash {
 func (r *c20Run) opRecover() bool {
 	rt := r.rt
 	dl := r.db.tree.bottom()
-	tail, err := r.db.stateFreezer.Tail(rawdb.DefaultHistoryGroup)
+	tail, stateTail, err := c20RollbackFloor(r.db)
 	if err != nil {
 		r.fail("freezer tail: %v", err)
+	}
+	if tail > stateTail {
+		r.st.Excluded() // rollback targets below the trienode history tail are not drawn (known finding)
 	}
 	id := int(dl.stateID())
 	if id == 0 || int(tail) >= id {
@@ -327,14 +353,14 @@ func (r *c20Run) span0(kind string, fn func()) {
 	r.nOps[kind]++
 }
 
-func c20Live(rt *rapid.T) *c20Run {
-	r := &c20Run{rt: rt, w: newPdbWorld(), rootID: map[common.Hash]int{}, parent: map[common.Hash]common.Hash{}, nOps: map[string]int{}}
+func c20Live(rt *rapid.T, st *vs.S) *c20Run {
+	r := &c20Run{rt: rt, st: st, w: newPdbWorld(), rootID: map[common.Hash]int{}, parent: map[common.Hash]common.Hash{}, nOps: map[string]int{}}
 	r.maxLayers = rapid.SampledFrom([]int{1, 1, 2, 4, 8, 128}).Draw(rt, "maxDiffLayers")
 	r.cfg = Config{
 		StateHistory:        rapid.SampledFrom([]uint64{0, 0, 3, 10}).Draw(rt, "stateHistory"),
 		TrienodeHistory:     rapid.SampledFrom([]int64{-1, -1, 0, 5}).Draw(rt, "trienodeHistory"),
 		FullValueCheckpoint: rapid.SampledFrom([]uint32{0, 8}).Draw(rt, "fullValueCheckpoint"),
-		WriteBufferSize:     rapid.SampledFrom([]int{0, 0, 1024, 4096, 64 * 1024}).Draw(rt, "writeBuffer"),
+		WriteBufferSize:     rapid.SampledFrom([]int{0, 0, 1024, 8192, 1 << 20}).Draw(rt, "writeBuffer"),
 		NoAsyncFlush:        rapid.IntRange(0, 3).Draw(rt, "asyncFlush") != 0,
 		NoAsyncGeneration:   true,
 		TrieCleanSize:       rapid.SampledFrom([]int{0, 64 * 1024}).Draw(rt, "cleanCache"),
@@ -376,6 +402,10 @@ func c20Live(rt *rapid.T) *c20Run {
 			}
 		default:
 			r.opJournal()
+			// a rollback right after a restart (SetHead, deep reorg) is its own class
+			if rapid.IntRange(0, 2).Draw(rt, "recoverAfterReopen") == 0 && r.opRecover() {
+				i++
+			}
 		}
 	}
 	if err := r.rec.Err(); err != nil {
@@ -790,6 +820,10 @@ func (r *c20Run) eval(evs []crashkv.Event, im *c20Image) c20Outcome {
 	if db.Recoverable(R) {
 		fail("Recoverable(disk layer root) = true")
 	}
+	floor, _, err := c20RollbackFloor(db)
+	if err != nil {
+		fail("history tail: %v", err)
+	}
 	curID := int(id)
 	rollback := func(j int) {
 		if msg := c20Guard(func() error { return db.Recover(anc[j]) }); msg != "" {
@@ -808,18 +842,22 @@ func (r *c20Run) eval(evs []crashkv.Event, im *c20Image) c20Outcome {
 		}
 		curID, tip = j, anc[j]
 	}
-	if int(tail) < int(id) {
+	if int(floor) < int(id) {
 		switch rapid.IntRange(0, 3).Draw(rt, "imageRollback") {
 		case 0:
 			rollback(int(id) - 1)
 			out.recovered = "nearest"
 		case 1:
-			rollback(int(tail))
+			rollback(int(floor))
 			out.recovered = "oldest"
+			if floor > tail {
+				r.st.Excluded()
+				out.recovered = "oldest-above-trienode-tail"
+			}
 		case 2:
 			rollback(int(id) - 1)
-			if int(tail) < int(id)-1 {
-				rollback(int(tail))
+			if int(floor) < int(id)-1 {
+				rollback(int(floor))
 			}
 			out.recovered = "nearest+oldest"
 		}
@@ -945,7 +983,7 @@ func (r *c20Run) crashPoints(evs []crashkv.Event) []int {
 }
 
 func c20Property(rt *rapid.T, st *vs.S) {
-	r := c20Live(rt)
+	r := c20Live(rt, st)
 	defer r.closeLive()
 	c := st.Case()
 	evs := r.log.Events()
@@ -1082,4 +1120,137 @@ func TestVerifC20Crash(t *testing.T) {
 	defer log.SetDefault(old)
 	defer func(old int) { maxDiffLayers = old }(maxDiffLayers)
 	vs.Check(t, 1, func(rt *rapid.T) { c20Property(rt, st) })
+}
+
+// ---------------------------------------------------------------- reproductions
+
+// TestVerifC20Repro replays the minimal scenarios written up in notes/C20.md. It is
+// skipped unless VERIF_C20_REPRO is set (documentation that runs, not part of the
+// check): each sub-test FAILS while the behaviour is present.
+func TestVerifC20Repro(t *testing.T) {
+	if os.Getenv("VERIF_C20_REPRO") == "" {
+		t.Skip("set VERIF_C20_REPRO=1 to run the reproductions")
+	}
+	old := log.Root()
+	log.SetDefault(log.NewLogger(c20CritHandler{}))
+	defer log.SetDefault(old)
+	defer func(old int) { maxDiffLayers = old }(maxDiffLayers)
+
+	type env struct {
+		w     *pdbWorld
+		kv    *memorydb.Database
+		dir   string
+		db    *Database
+		roots []common.Hash
+		cfg   Config
+	}
+	open := func(t *testing.T, e *env) string {
+		cfg := e.cfg
+		return c20Guard(func() error {
+			e.db = New(&c20Disk{Database: rawdb.NewDatabase(e.kv), dir: e.dir}, &cfg, false)
+			return nil
+		})
+	}
+	start := func(t *testing.T, cfg Config, layers int) *env {
+		maxDiffLayers = layers
+		e := &env{w: newPdbWorld(), kv: memorydb.New(), dir: t.TempDir(), cfg: cfg}
+		e.roots = []common.Hash{types.EmptyRootHash}
+		if msg := open(t, e); msg != "" {
+			t.Fatalf("open: %s", msg)
+		}
+		return e
+	}
+	update := func(t *testing.T, e *env, n int) {
+		for i := 0; i < n; i++ {
+			head := e.roots[len(e.roots)-1]
+			tr := e.w.Transition(head, []pdbOp{{pdbOpCreate, len(e.roots) % pdbNumAddrs, 0, 1}, {pdbOpSetSlot, len(e.roots) % pdbNumAddrs, len(e.roots) % pdbNumSlots, len(e.roots)}}, e.w.NextSeq(), false)
+			if err := e.db.Update(tr.Root, tr.Parent, uint64(len(e.roots)), tr.Nodes, tr.States); err != nil {
+				t.Fatalf("update: %v", err)
+			}
+			e.roots = append(e.roots, tr.Root)
+		}
+	}
+	snapshotKV := func(kv *memorydb.Database) *memorydb.Database {
+		cp := memorydb.New()
+		it := kv.NewIterator(nil, nil)
+		for it.Next() {
+			cp.Put(it.Key(), it.Value())
+		}
+		it.Release()
+		return cp
+	}
+	copyDir := func(t *testing.T, src string) string {
+		snap, err := crashfs.Snap(src)
+		if err != nil {
+			t.Fatal(err)
+		}
+		for n := range snap.Files {
+			if strings.HasSuffix(n, "FLOCK") {
+				delete(snap.Files, n)
+			}
+		}
+		dst := t.TempDir()
+		if err := snap.WriteTo(dst); err != nil {
+			t.Fatal(err)
+		}
+		return dst
+	}
+
+	// (b) journal with a non-empty write buffer, reopen, rollback inside the buffer, process kill
+	t.Run("StaleJournalAfterRollback", func(t *testing.T) {
+		e := start(t, Config{WriteBufferSize: 1 << 20, NoAsyncFlush: true, NoAsyncGeneration: true, TrienodeHistory: -1}, 1)
+		update(t, e, 4) // disk layer id 3 (all in the write buffer), one diff layer
+		if err := e.db.Journal(e.roots[4]); err != nil {
+			t.Fatal(err)
+		}
+		e.db.Close()
+		if msg := open(t, e); msg != "" {
+			t.Fatalf("clean reopen: %s", msg)
+		}
+		t.Logf("reopened: disk layer id %d, buffered %d, persistent id %d", e.db.tree.bottom().stateID(), e.db.tree.bottom().buffer.layers, rawdb.ReadPersistentStateID(e.kv))
+		if err := e.db.Recover(e.roots[2]); err != nil {
+			t.Fatalf("recover: %v", err)
+		}
+		// process kill: nothing is lost
+		img := &env{kv: snapshotKV(e.kv), dir: copyDir(t, e.dir), cfg: e.cfg}
+		e.db.Close()
+		if msg := open(t, img); msg != "" {
+			t.Fatalf("reopen after process kill following a rollback inside the journaled write buffer: %s", msg)
+		}
+		img.db.Close()
+	})
+	// (c) trienode history retains less than the state history; rollback below the trienode tail
+	t.Run("RollbackBelowTrienodeTail", func(t *testing.T) {
+		e := start(t, Config{WriteBufferSize: 0, NoAsyncFlush: true, NoAsyncGeneration: true, StateHistory: 0, TrienodeHistory: 2}, 1)
+		update(t, e, 8)
+		st, _ := e.db.stateFreezer.Tail(rawdb.DefaultHistoryGroup)
+		tt, _ := e.db.trienodeFreezer.Tail(rawdb.DefaultHistoryGroup)
+		t.Logf("disk layer id %d, state history tail %d, trienode history tail %d", e.db.tree.bottom().stateID(), st, tt)
+		target := e.roots[1]
+		if !e.db.Recoverable(target) {
+			t.Skip("not recoverable")
+		}
+		err := e.db.Recover(target)
+		t.Logf("Recover: %v; disk layer id %d", err, e.db.tree.bottom().stateID())
+		e.db.Close()
+		if msg := open(t, e); msg != "" {
+			t.Fatalf("Recoverable said yes, Recover returned %v, clean reopen afterwards: %s", err, msg)
+		}
+		if err != nil {
+			t.Fatalf("Recoverable said yes but Recover failed: %v", err)
+		}
+	})
+	// (a) key-value store loses more flushes than the history limit retains
+	t.Run("KVLossBelowHistoryTail", func(t *testing.T) {
+		e := start(t, Config{WriteBufferSize: 0, NoAsyncFlush: true, NoAsyncGeneration: true, StateHistory: 2, TrienodeHistory: -1}, 1)
+		update(t, e, 3)
+		old := snapshotKV(e.kv) // persistent id 2; nothing syncs the key-value store afterwards
+		update(t, e, 6)
+		e.db.Close() // freezer synced: tail well above 2
+		img := &env{kv: old, dir: copyDir(t, e.dir), cfg: e.cfg}
+		if msg := open(t, img); msg != "" {
+			t.Fatalf("reopen with the key-value store at persistent id %d and the synced history tail above it: %s", rawdb.ReadPersistentStateID(old), msg)
+		}
+		img.db.Close()
+	})
 }
